@@ -9,6 +9,7 @@ CONSTANTS
   Dev_AdoptAckVerbatim = FALSE
   Dev_ServerIgnoresHello = FALSE
   Dev_ServerZeroIsLimit = FALSE
+  Dev_AbortLeaksChunks = FALSE
   Dev_NoSendLimit = FALSE
   Emit = FALSE
 INIT Init
@@ -18,4 +19,5 @@ INVARIANT InvFits
 INVARIANT InvAccepts
 INVARIANT InvAcceptLimit
 INVARIANT InvRefuse
+INVARIANT InvAbortReleases
 CHECK_DEADLOCK FALSE
